@@ -176,7 +176,8 @@ CHECKS["C12"] = dict(
          "every caller returned) checked exhaustively on Channel.tla with Close placed at every state, send buffer 0/1, "
          "two-way/one-way/streaming requests, a request issued after Close. Scenarios close-while-awaiting, close-buffered "
          "(send buffer 4, six calls after Close), close-at-loop-end (gate between routing and the loop-end check), "
-         "close-noconnect x 9 call kinds: after Close returned every call is served, post-Close two-way calls failed, no "
+         "close-sender-exit-window (the sender held at its exit after its drain, twelve calls with a send buffer), "
+         "close-noconnect, close-never-connected x 9 call kinds: after Close returned every call is served, post-Close two-way calls failed, no "
          "library goroutine is left, nothing panicked; each scenario runs in its own process.",
     ref="DESIGN.md 5 C12, 3.2", note=LIFE_NOTE, technique=LIFE_TECH)
 
@@ -229,12 +230,13 @@ CHECKS["C16"] = dict(
     engine="gen", category="model_checking",
     text="Gen.tla transcribes doc/method-options.md: Verdict(service) in {accept (documented combination), reject (reserved "
          "message name, documented illegal stream/option combination), either (undocumented mix: diagnostic or compiling "
-         "output)} and Acceptable(verdict, run). TLC enumerates the lattice (1625 services: single-method services over option sets x "
+         "output)} and Acceptable(verdict, run). TLC enumerates the lattice (2025 services: single-method services over option sets x "
          "per_node_arg x custom_return_type x client/server stream x local/Empty/imported types, reserved names, two services, "
          "every documented method with a message imported from a Go package named like one the generated file uses itself "
          "(encoding, fmt, gorums, context, proto) and with CamelCase / lowerCamel / snake_case / lower-case rpc names; "
-         "thorough adds all ordered pairs of documented methods); the plugin built from the working tree runs three times "
-         "per definition under a timeout (determinism = identical bytes), everything emitted is compiled with the standard "
+         "all 400 ordered pairs of documented methods); the plugin built from the working tree runs three times "
+         "per definition under a timeout and every accepted service is also generated together with another one in one "
+         "request, both orders (determinism = identical bytes, also independent of the rest of the request), everything emitted is compiled with the standard "
          "message code against /repo in one batch, and TLC validates every outcome.",
     ref="DESIGN.md 5 C16, 3.4", note=GEN_NOTE,
     technique="TLA+ transcription of the option lattice (Gen.tla); TLC enumeration; each case replayed on the real plugin and compiled; TLC validation")
